@@ -113,6 +113,9 @@ package common
 //@ typeinv ScopeInfo: nonnilvals(self.LocVarMap)
 //@ typeinv ScopeInfo: forall(k, 0, len(self.SubScopes), self.SubScopes[k] != nil)
 //@ typeinv VarInfo: nonnilvals(self.SubMaps)
+//@ typeinv CreateTypeList: forall(k, 0, len(self.List), self.List[k] != nil)
+//@ typeinv OneAliasInfo: self.AliasState != nil
+//@ typeinv AnnotateFile: forallvals(v, self.CreateTypeMap, forall(k, 0, len(v.List), v.List[k] != nil))
 
 // ---- C05: visibility of a local declaration at a use position ----
 // Lua: a local is visible after its declaration, not inside its own initialiser; "local function f" sees itself.
